@@ -373,15 +373,19 @@ func filterMerge(ctx stick.Context, val stick.Value, args ...stick.Value) stick.
 	outMap, isObject := val.(map[string]stick.Value)
 
 	if isObject {
-		argMap, ok := args[0].(map[string]stick.Value)
-
-		if ok {
+		// Merge into a new map: the input may be a nil map, and it belongs to
+		// the caller, whose variable must not change.
+		res := make(map[string]stick.Value, len(outMap))
+		for k, v := range outMap {
+			res[k] = v
+		}
+		if argMap, ok := args[0].(map[string]stick.Value); ok {
 			for k, v := range argMap {
-				outMap[k] = v
+				res[k] = v
 			}
 		}
 
-		return outMap
+		return res
 	} else {
 		var out []stick.Value
 
